@@ -240,6 +240,7 @@ _ROUND8 = {
     "C21": " Also appends that fail (a tick / event payload that cannot be serialized) followed by further appends to the same run.",
     "C22": " Also two workflow instances configured from the same JSON file (ResourceConfig): one settings object per instance, shared by that instance's steps only.",
     "C24": " A query that raises is judged as a wrong answer (not as a harness error).",
+    "C36": " Also a restarted server whose start-up pass reads a busy handler's tick log slowly while a client's answer reloads the run on demand, which then goes idle and is released: when the slow read returns the run must stay (or get) released.",
 }
 for _k, _add in _ROUND8.items():
     _t = CHECKS[_k]
